@@ -92,11 +92,28 @@ impl Members {
         // update the member, then set the return to "Update".
         // Because a newly inserted member would always have the same
         // timestamp this code doesn't run if we just inserted.
+        let mut previous_addr = None;
         if actor.ts().to_duration() > member.ts.to_duration() {
+            if member.addr != actor.addr() {
+                previous_addr = Some(member.addr);
+                // the ring was derived from samples for the old address
+                member.ring = None;
+            }
             member.addr = actor.addr();
             member.ts = actor.ts();
             member.cluster_id = actor.cluster_id();
             ret = MemberAddedResult::Updated;
+        }
+
+        // A renewed identity may come with a new address: the address
+        // index has to follow, otherwise RTT samples for the new address
+        // never reach the member and samples for the old one still do.
+        if let Some(previous_addr) = previous_addr {
+            if self.by_addr.get(&previous_addr) == Some(&actor_id) {
+                self.by_addr.remove(&previous_addr);
+            }
+            self.by_addr.insert(actor.addr(), actor_id);
+            self.recalculate_rings(actor.addr());
         }
 
         // If we just inserted, add the actor to the by_addr set and
